@@ -1,5 +1,11 @@
 (* C17 classifier: 0 Agree | 1 ModelMismatch | 2 PropertyFail |
    9 harness error (a Camt053 rule list outside the model: bank-transaction-code matchers).
+   Four kinds of case: K (CSV records), KC (Camt053 records), KV (Viseca records) - each with what
+   ConfigSet::select returned for the path and what import::import made of the records under
+   the selected entry - and KM: a run of the `okane import --config CFG SOURCE` command in a
+   fresh process, where only the SOURCE string as given on the command line, the documents, the
+   records and what the command printed (read back into transactions) are known: the
+   configuration in force must be the merge for that very string.
    A case is a list of configuration documents, a file path, what ConfigSet::select returned,
    and either the CSV records fed to import::import under the selected configuration (with the
    column layout the harness used) or the records of a Camt053 statement (the texts of the fields
@@ -9,7 +15,8 @@
    transaction against the rules that hit its record (Model/ImpExtractSpec.v). *)
 From Coq Require Import List NArith ZArith Bool QArith Qcanon.
 From Okv Require Import Base.Dec Model.ImpConfig Model.ImpConfigSpec Model.ImpExtract
-     Model.ImpExtractSpec Model.ImpSingleEntry Model.ImpCsv Model.ImpCamtMatch Run.ImpPattern Run.ImpCase.
+     Model.ImpExtractSpec Model.ImpSingleEntry Model.ImpCsv Model.ImpCamtMatch Model.ImpVisecaMatch
+     Run.ImpPattern Run.ImpCase.
 Import ListNotations.
 
 Inductive sel_obs := SelNone | SelErr (code : N) | SelOk (e : entry pat) | SelPanic.
@@ -23,15 +30,9 @@ Record csv_case := { k_docs : list (doc pat); k_path : str; k_sel : sel_obs;
 Record camt_case := { kc_docs : list (doc pat); kc_path : str; kc_sel : sel_obs;
                       kc_entries : list (list camt_entity); kc_imp : imp_obs }.
 
-Inductive case := KCsv (c : csv_case) | KCamt (c : camt_case).
-Definition K docs path sel fmt header rows imp : case :=
-  KCsv {| k_docs := docs; k_path := path; k_sel := sel; k_fmt := fmt; k_header := header; k_rows := rows;
-          k_imp := imp |}.
 (* CE: the fields by RewriteField code, AcctSvcrRef, debit *)
 Definition CE (fields : list (N * str)) (reference : option str) (debit : bool) : camt_entity :=
   {| ce_texts := map (fun kv => (RF (fst kv), snd kv)) fields; ce_reference := reference; ce_debit := debit |}.
-Definition KC docs path sel entries imp : case :=
-  KCamt {| kc_docs := docs; kc_path := path; kc_sel := sel; kc_entries := entries; kc_imp := imp |}.
 
 Definition cfg_err_code (e : cfg_err) : N :=
   match e with NoEncoding => 1 | NoAccount => 2 | NoAccountType => 3 | NoCommodity => 4 end%N.
@@ -209,7 +210,160 @@ Definition classify_camt (c : camt_case) : N :=
       else if sel_same && match kc_imp c with ImpNotRun => true | _ => false end then 0%N else 1%N
   end.
 
+(* ---- Viseca records ---- *)
+Record vis_case := { kv_docs : list (doc pat); kv_path : str; kv_sel : sel_obs;
+                     kv_recs : list viseca_entity; kv_imp : imp_obs }.
+Definition VE (payee category : str) (debit fee : bool) : viseca_entity :=
+  {| ve_payee := payee; ve_category := category; ve_debit := debit; ve_fee := fee |}.
+
+Definition vis_hits (e : entry pat) (r : viseca_entity) : list (hit pat) :=
+  hits (viseca_matches re_captures) frag0 (compile (e_rewrite e)) r.
+
+(* the property on one transaction: payee and code of the last hit that set / captured one (the
+   statement's payee and no code otherwise), counter account and pending mark as the hits say *)
+Definition spec_vis_txn (e : entry pat) (r : viseca_entity) (t : stxn) : bool :=
+  let hs := vis_hits e r in
+  let counter := if ve_debit r then first_post t else last_post t in
+  str_eqb (st_payee t) (one_line (match spec_payee hs with Some p => p | None => ve_payee r end))
+  && ostr_eqb (st_code t) (option_map one_line (spec_code hs))
+  && match counter with
+     | None => false
+     | Some p =>
+         str_eqb (sp_account p)
+                 (match spec_account hs with
+                  | Some a => a
+                  | None => if ve_debit r then expenses_unknown else income_unknown
+                  end)
+         && clear_eqb (sp_clear p) (if spec_cleared hs then Uncleared else Pending)
+     end.
+Fixpoint spec_vis_txns (e : entry pat) (rs : list viseca_entity) (ts : list stxn) : bool :=
+  match rs, ts with
+  | [], [] => true
+  | r :: rr, t :: tr => spec_vis_txn e r t && spec_vis_txns e rr tr
+  | _, _ => false
+  end.
+Definition vis_accepts (e : entry pat) (rs : list viseca_entity) : bool :=
+  viseca_accepts re_valid (e_rewrite e) (e_operator e) rs.
+(* one transaction per record, in statement order (row_order is a CSV / Camt053 matter) *)
+Definition spec_vis (e : entry pat) (rs : list viseca_entity) (o : imp_obs) : bool :=
+  match o with
+  | ImpPanic | ImpNotRun => false
+  | ImpErr _ => negb (vis_accepts e rs)
+  | ImpOk ts => vis_accepts e rs && spec_vis_txns e rs ts
+  end.
+
+Definition vview_agrees (r : viseca_entity) (v : viseca_view) (t : stxn) : bool :=
+  let counter := if ve_debit r then first_post t else last_post t in
+  str_eqb (st_payee t) (vv_payee v) && ostr_eqb (st_code t) (vv_code v)
+  && match counter with
+     | None => false
+     | Some p =>
+         str_eqb (sp_account p) (match vv_dest v with
+                                 | Some a => a
+                                 | None => if ve_debit r then expenses_unknown else income_unknown
+                                 end)
+         && clear_eqb (sp_clear p) (if vv_pending v then Pending else Uncleared)
+     end.
+Fixpoint vviews_agree (e : entry pat) (rs : list viseca_entity) (ts : list stxn) : bool :=
+  match rs, ts with
+  | [], [] => true
+  | r :: rr, t :: tr => vview_agrees r (viseca_record_view re_captures (e_rewrite e) r) t && vviews_agree e rr tr
+  | _, _ => false
+  end.
+Definition vis_model_agrees (e : entry pat) (rs : list viseca_entity) (o : imp_obs) : bool :=
+  match o with
+  | ImpErr _ => negb (vis_accepts e rs)
+  | ImpOk ts => vis_accepts e rs && vviews_agree e rs ts
+  | _ => false
+  end.
+
+Definition classify_vis (c : vis_case) : N :=
+  let msel := select (kv_docs c) (kv_path c) in
+  let sel_spec := spec_select (kv_docs c) (kv_path c) (kv_sel c) in
+  let sel_same := sel_agrees (kv_sel c) msel in
+  match kv_sel c with
+  | SelOk e =>
+      if negb sel_spec then 2%N
+      else if negb (spec_vis e (kv_recs c) (kv_imp c)) then 2%N
+      else if sel_same && vis_model_agrees e (kv_recs c) (kv_imp c) then 0%N else 1%N
+  | _ =>
+      if negb sel_spec then 2%N
+      else if sel_same && match kv_imp c with ImpNotRun => true | _ => false end then 0%N else 1%N
+  end.
+
+(* ---- the command: `okane import --config CFG SOURCE` in a fresh process ---- *)
+Inductive records :=
+| RecCsv (header : list str) (rows : list row)
+| RecCamt (entries : list (list camt_entity))
+| RecVis (recs : list viseca_entity).
+(* what the process did: "config matching ... not found" | the invalid-config error of the merged
+   documents | import ran (transactions read back from the printed ledger, or its refusal;
+   ImpPanic = exit status 101 or a signal) | anything else (harness trouble) *)
+Inductive cmd_obs := CmdNoConfig | CmdBadConfig (k : N) | CmdRan (o : imp_obs) | CmdOther.
+Record cmd_case := { m_docs : list (doc pat); m_given : str; m_recs : records; m_obs : cmd_obs }.
+
+(* the configured account is on the other side of every transaction *)
+Definition src_account_ok (e : entry pat) (o : imp_obs) : bool :=
+  match o with
+  | ImpOk ts => forallb (fun t => match first_post t, last_post t with
+                                  | Some a, Some b => str_eqb (sp_account a) (e_account e)
+                                                      || str_eqb (sp_account b) (e_account e)
+                                  | _, _ => false
+                                  end) ts
+  | _ => true
+  end.
+
+Definition spec_records (e : entry pat) (rc : records) (o : imp_obs) : bool :=
+  src_account_ok e o &&
+  match rc with
+  | RecCsv header rows => spec_import e header rows o (model_import e header rows)
+  | RecCamt entries => camt_in_model (e_rewrite e) && spec_camt e entries o
+  | RecVis recs => spec_vis e recs o
+  end.
+Definition model_records (e : entry pat) (rc : records) (o : imp_obs) : bool :=
+  match rc with
+  | RecCsv header rows => imp_agrees o (model_import e header rows)
+  | RecCamt entries => camt_model_agrees e entries o
+  | RecVis recs => vis_model_agrees e recs o
+  end.
+
+(* the observation against a configuration in force (none / invalid / an entry) *)
+Definition cmd_under (x : option (entry pat + cfg_err)) (o : cmd_obs) (ran : entry pat -> imp_obs -> bool) : bool :=
+  match x, o with
+  | None, CmdNoConfig => true
+  | Some (inr er), CmdBadConfig k => (k =? cfg_err_code er)%N
+  | Some (inl e), CmdRan io => ran e io
+  | _, _ => false
+  end.
+
+(* property: the transactions printed are the ones the rules of the declarative merge for the
+   string given on the command line produce (Model/ImpConfigSpec.v spec_merged: every document
+   whose path occurs in that string, shortest first) *)
+Definition classify_cmd (c : cmd_case) : N :=
+  let sp := option_map to_entry (spec_merged (m_docs c) (m_given c)) in
+  let md := select (m_docs c) (m_given c) in
+  match m_obs c with
+  | CmdOther => 9%N
+  | o =>
+      if negb (cmd_under sp o (fun e io => spec_records e (m_recs c) io)) then 2%N
+      else if cmd_under md o (fun e io => model_records e (m_recs c) io) then 0%N else 1%N
+  end.
+
+Inductive case := KCsv (c : csv_case) | KCamt (c : camt_case) | KVis (c : vis_case) | KCmd (c : cmd_case).
+Definition K docs path sel fmt header rows imp : case :=
+  KCsv {| k_docs := docs; k_path := path; k_sel := sel; k_fmt := fmt; k_header := header; k_rows := rows;
+          k_imp := imp |}.
+Definition KC docs path sel entries imp : case :=
+  KCamt {| kc_docs := docs; kc_path := path; kc_sel := sel; kc_entries := entries; kc_imp := imp |}.
+Definition KV docs path sel recs imp : case :=
+  KVis {| kv_docs := docs; kv_path := path; kv_sel := sel; kv_recs := recs; kv_imp := imp |}.
+Definition KM docs given recs obs : case :=
+  KCmd {| m_docs := docs; m_given := given; m_recs := recs; m_obs := obs |}.
+
 Definition classify (c : case) : N :=
-  match c with KCsv c => classify_csv c | KCamt c => classify_camt c end.
+  match c with
+  | KCsv c => classify_csv c | KCamt c => classify_camt c | KVis c => classify_vis c
+  | KCmd c => classify_cmd c
+  end.
 
 Definition verdicts (cs : list case) : list N := map classify cs.
